@@ -30,6 +30,7 @@ RULE += (' Also: a tee of a tee child, the inner tee with a lock of its own.')
 RULE += (' Also: no pinned item at all is tolerated once every live child has yielded it.')
 RULE += (' Also: with fixed per-consumer requests the source is never advanced beyond the largest request.')
 RULE += (' Also: a future-style source whose plain __anext__ starts the fetch when called (scenarios without cancellation).')
+RULE += (' Also: a synchronous non-iterator collection as tee source.')
 ASSUMPTIONS = ["without a lock only non-suspending sources are claimed (as the property states)",
                "class-based cancellation-safe source: an item is consumed only after the last suspension of __anext__",
                "consumers close their child when they stop (owner closes what it advanced)"]
@@ -88,6 +89,10 @@ def cases(tier, seed, shard, nshards):
         # in scenarios without a cancelled consumer)
         case["flav"] = rng.choice(["async_class", "async_class", "async_class_eagerstart"]) \
             if case["cancel_task"] is None else "async_class"
+        if not case["src_susp"] and rng.random() < 0.25:
+            # a synchronous collection that is not its own iterator (asked for an iterator twice, it reports it): the
+            # tee draws ONE iterator from it, whatever the number of children
+            case["flav"] = "sync_iterable"
         # locks that are a scheduling point before acquiring / after having released
         case["lock_susp"] = rng.choice([[0, 0], [0, 0], [1, 0], [0, 1], [1, 1]]) if case["lock"] else [0, 0]
         case["seed"] = rng.randrange(1 << 30)
@@ -161,7 +166,9 @@ def execute(case, choose, cancel_at=None):
         stale = sum(1 for i in range(min(floor, length)) if refs[i]() is not None)
         if stale > worst["stale"]:
             worst["stale"] = stale
-        if stale > ALLOW_PINNED * (n + (1 + case["nested"] if case.get("nested") else 0)):
+        # (a synchronous source is read through the library's sync-to-async adapter, a generator whose loop variable
+        # holds the item it handed out last until it is asked for the next one: one item, outside the tee)
+        if stale > ALLOW_PINNED * (n + (1 + case["nested"] if case.get("nested") else 0)) + (case["flav"] == "sync_iterable"):
             unstarted = any(closed[c] and not advanced[c] for c in range(n))
             viols.append(("tee/unstarted-child-never-deregisters" if unstarted else "tee/retains-items-every-live-child-yielded",
                           f"{stale} items that all live children {live} already yielded are still alive at step "
@@ -207,7 +214,8 @@ def execute(case, choose, cancel_at=None):
         viols.append(("tee/lock-held-at-end", f"lock still owned by {lock.owner}"))
     if lock2 is not None and lock2.owner is not None and not driver.deadlock:
         viols.append(("tee/lock-held-at-end", f"lock of the inner tee still owned by {lock2.owner}"))
-    if all(t.done for t in tasks) and not driver.deadlock and not any(abandoned):
+    if all(t.done for t in tasks) and not driver.deadlock and not any(abandoned) and case["flav"] != "sync_iterable":
+        # (a synchronous source has nothing to close)
         if not st.released():
             key = "tee/unstarted-child-never-deregisters" if not all(advanced) else "tee/source-not-closed-after-last-child"
             viols.append((key, f"all consumers done, source still open (advanced={advanced})"))
